@@ -242,6 +242,12 @@ def un(name, p):
                 return Poly.const(r)
         if name == "acos" and cv == 1:
             return ZERO
+        if name == "acos" and cv == 0:
+            return PI_POLY.scale(Fraction(1, 2))
+        if name == "acos" and cv == -1:
+            return PI_POLY
+        if name == "asin" and abs(cv) == 1:
+            return PI_POLY.scale(Fraction(int(cv), 2))
         if name == "log" and cv == 1:
             return ZERO
         if name == "not":
@@ -249,6 +255,13 @@ def un(name, p):
         if name in ("floor", "ceil"):
             import math
             return Poly.const(math.floor(cv) if name == "floor" else math.ceil(cv))
+    if name == "fabs":
+        lo_hi = pi_interval(p)
+        if lo_hi is not None:
+            if lo_hi[0] >= 0:
+                return p
+            if lo_hi[1] <= 0:
+                return -p
     if name == "sqrt":
         ms = _monomial_sqrt(p)
         if ms is not None:
@@ -333,8 +346,36 @@ def unop(name):
 
 # --------------------------------------------------------------------------- binary opaque operators
 
+PI_LO, PI_HI = Fraction(314159265, 100000000), Fraction(314159266, 100000000)
+
+
+def pi_interval(p):
+    """(lo, hi) rational bounds of a constant of the form a + b*pi (3.14159265 < pi < 3.14159266), else None."""
+    pia = PI_POLY.single_atom()
+    a = Fraction(0)
+    b = Fraction(0)
+    for m, c in p.t.items():
+        if m == ():
+            a = Fraction(c)
+        elif m == ((pia, 1),):
+            b = Fraction(c)
+        else:
+            return None
+    if b == 0:
+        return (a, a)
+    lo, hi = (a + b * PI_LO, a + b * PI_HI) if b > 0 else (a + b * PI_HI, a + b * PI_LO)
+    return (lo, hi)
+
+
 def _cmp(name, x, y):
     cx, cy = x.const_value(), y.const_value()
+    if (cx is None or cy is None) and name in ("lt", "le"):
+        iv = pi_interval(y - x)
+        if iv is not None:
+            if iv[0] > 0:
+                return Poly.const(1)
+            if iv[1] < 0:
+                return Poly.const(0)
     if cx is not None and cy is not None:
         r = {"lt": cx < cy, "le": cx <= cy, "eq": cx == cy, "ne": cx != cy}[name]
         return Poly.const(int(r))
